@@ -41,6 +41,7 @@ fn bounds(tier: Tier) -> Vec<Cfg15> {
             c(Fam::Nest, 0, 2, 3),
             c(Fam::Nest, 1, 2, 3),
             c(Fam::Rtx, 0, 2, 3),
+            c(Fam::Rtx, 4, 2, 3),
             c(Fam::Arr, 1, 2, 3),
         ],
         Tier::Thorough => vec![
@@ -51,6 +52,7 @@ fn bounds(tier: Tier) -> Vec<Cfg15> {
             c(Fam::Nest, 0, 2, 4),
             c(Fam::Nest, 1, 2, 3),
             c(Fam::Rtx, 0, 2, 4),
+            c(Fam::Rtx, 4, 2, 4),
             c(Fam::Arr, 1, 2, 4),
             c(Fam::Xml, 0, 2, 3),
         ],
